@@ -170,9 +170,16 @@ impl<'a> ExpressionEvaluator<'a> {
                         "cannot apply unary operators to lists of values!".to_string(),
                     ));
                 };
-                Ok(vec![DataType::Bool(Bool(
-                    set.contains(&evaluated[0]) != *negated,
-                ))])
+                // Three-valued logic: NULL IN (..) is NULL; when nothing matches and the list holds a
+                // NULL the answer is NULL as well (the NULL might have been the match).
+                if matches!(evaluated[0], DataType::Null) {
+                    return Ok(vec![DataType::Null]);
+                }
+                let found = set.contains(&evaluated[0]);
+                if !found && set.contains(&DataType::Null) {
+                    return Ok(vec![DataType::Null]);
+                }
+                Ok(vec![DataType::Bool(Bool(found != *negated))])
             }
             BoundExpression::Subquery { query, result_type } => {
                 todo!("Subquery evaluation is not yet implemented")
